@@ -44,6 +44,33 @@ func (i *interpreter) isTargetGlobal(p *value) bool {
 	return false
 }
 
+// isTargetPool: a sync.Pool that belongs to the module under test — a
+// package-level variable of it, or a pool value whose New function is code of
+// the module (a pool a constructor creates per object).
+func (i *interpreter) isTargetPool(p *value) bool {
+	if i.isTargetGlobal(p) {
+		return true
+	}
+	st, ok := (*p).(structure)
+	if !ok || len(st) == 0 || i.harnessPk == nil {
+		return false
+	}
+	root := i.harnessPk.Pkg.Path()
+	for _, marker := range []string{"/lib", "/internal"} {
+		if k := strings.Index(root, marker); k >= 0 {
+			root = root[:k]
+		}
+	}
+	var fn *ssa.Function
+	switch f := st[len(st)-1].(type) {
+	case *ssa.Function:
+		fn = f
+	case *closure:
+		fn = f.Fn
+	}
+	return fn != nil && fn.Pkg != nil && strings.HasPrefix(fn.Pkg.Pkg.Path(), root)
+}
+
 func (i *interpreter) sync() *syncState {
 	if i.syncSt == nil {
 		i.syncSt = &syncState{locked: map[*value]bool{}, readers: map[*value]int{}, wg: map[*value]int64{}, avals: map[*value]value{}}
@@ -146,7 +173,7 @@ func registerSyncStubs() {
 	// both ways — so code that keeps using an object after Put is exposed.
 	externals["(*sync.Pool).Put"] = func(fr *frame, a []value) (value, bool) {
 		p := a[0].(*value)
-		if fr.i.isTargetGlobal(p) {
+		if fr.i.isTargetPool(p) {
 			if it, ok := a[1].(iface); ok && it.t != nil {
 				st := fr.i.sync()
 				if st.pools == nil {
